@@ -2327,6 +2327,44 @@ fn replay_findings(base: &mut Base, out: &mut Out) {
         let r = probe(&format!("{{\"id\":6,\"type\":\"debug.evaluate\",\"params\":{{\"expression\":\"{expr}\"}}}}"));
         out.count(&format!("finding:debug-evaluate-deep-{name}:{r}"));
     }
+    // the whole family: every recursive expression form, bare and inside each wrapper that starts a new syntactic
+    // context (call argument, second call argument, index, parenthesis, operand), beyond the depth bound
+    let shapes: [(&str, fn(usize) -> String); 7] = [
+        ("chain", |n| format!("1{}", "+1".repeat(n))),
+        ("parens", |n| format!("{}1{}", "(".repeat(n), ")".repeat(n))),
+        ("nots", |n| format!("{}TRUE", "NOT ".repeat(n))),
+        ("fields", |n| format!("a{}", ".b".repeat(n))),
+        ("index", |n| format!("a{}", "[1]".repeat(n))),
+        ("calls", |n| format!("{}1{}", "ABS(".repeat(n), ")".repeat(n))),
+        ("neg", |n| format!("{}1", "-".repeat(n))),
+    ];
+    let wrappers: [(&str, &str, &str); 6] = [
+        ("bare", "", ""),
+        ("call-arg", "ABS(", ")"),
+        ("call-arg2", "LIMIT(0, ", ", 1)"),
+        ("named-arg", "ABS(IN := ", ")"),
+        ("index", "a[", "]"),
+        ("operand", "1 + (", ")"),
+    ];
+    let mut failed = 0;
+    for (sname, shape) in shapes.iter() {
+        for (wname, pre, post) in wrappers.iter() {
+            for n in [250usize, 1200] {
+                let expr = format!("{pre}{}{post}", shape(n));
+                if expr.len() > 4096 {
+                    continue;
+                }
+                let r = probe(&format!("{{\"id\":6,\"type\":\"debug.evaluate\",\"params\":{{\"expression\":\"{expr}\"}}}}"));
+                if r != "id=6_handled" {
+                    failed += 1;
+                    out.count(&format!("finding:debug-evaluate-family-fail:{sname}/{wname}/{n}:{r}"));
+                }
+            }
+        }
+    }
+    if failed == 0 {
+        out.count("finding:debug-evaluate-family:all-handled");
+    }
     // C18-config-duration-overflow: Duration::from_millis(millis * 1_000_000) overflows i64
     let r = probe("{\"id\":7,\"type\":\"config.set\",\"params\":{\"watchdog.timeout_ms\":9223372036855}}");
     out.count(&format!("finding:config-duration-overflow:{r}"));
